@@ -6,7 +6,7 @@ From Coq Require Import ZArith List Bool Lia.
 From Soc Require Import Lib.Bits Lib.Res.
 From Soc Require Import Model.Mux Model.MuxSpec Model.Gpio Model.GpioSpec.
 From Soc Require Import Proofs.Gpio Proofs.GpioCtor Proofs.GpioSpan Proofs.GpioBus Proofs.GpioRegs.
-From Soc Require Model.RegPack.
+From Soc Require Model.RegPack Model.GpioBuilder Proofs.GpioLayoutTie.
 Import ListNotations.
 Open Scope Z_scope.
 
@@ -185,6 +185,14 @@ Theorem C16_place_spec : forall aw dw, 0 < dw -> forall specs cur, Forall (fun s
   then Ok (natural dw cur specs) else Err ValueError.
 Proof. exact place_spec. Qed.
 Print Assumptions C16_place_spec.
+
+(* ... and it is the C02 memory-map model's layout: for every geometry, driving that model the way
+   csr.Builder.as_memory_map drives MemoryMap (add_resource with addr=None, size=reg_size,
+   alignment=ceil_log2(reg_size) per register) yields the same ranges, or the same ValueError *)
+Theorem C16_layout_is_memory_map_layout : forall aw dw n, 0 < aw -> 0 < dw -> 0 < n ->
+  GpioBuilder.via_memory_map aw dw n = GpioBuilder.via_place aw dw n.
+Proof. exact GpioLayoutTie.layout_models_agree_all. Qed.
+Print Assumptions C16_layout_is_memory_map_layout.
 
 (* An accepted peripheral has the documented layout, unmoved, under an admissible multiplexer. *)
 Theorem C16_ctor_ok : forall p c, ctor p = Ok c ->
@@ -367,7 +375,10 @@ Example C16_ctor_nonvacuous :
       (layout_of {| p_pins := VInt 20; p_aw := VInt 5; p_dw := VInt 8; p_stages := VInt 0 |}) =
     [(0, 8); (8, 12); (12, 16); (16, 24)] /\
   (* spans: 20 pins / 8 bits: P = 8 = 2Q -> 24; 5 pins / 8 bits: P = 2 = 2Q -> 6; 4 pins / 8 bits: P = Q = 1 -> 4 *)
-  span 8 20 = 24 /\ span 8 5 = 6 /\ span 8 4 = 4.
+  span 8 20 = 24 /\ span 8 5 = 6 /\ span 8 4 = 4 /\
+  (* the C02 memory-map model, driven as the builder drives it, places them identically and refuses identically *)
+  GpioBuilder.via_memory_map 5 8 20 = Ok [(0, 8); (8, 12); (12, 16); (16, 24)] /\
+  GpioBuilder.via_memory_map 4 8 20 = Err ValueError.
 Proof. vm_compute. repeat split; reflexivity. Qed.
 
 Example ex_accepted : accepted ex_c 5 ex_r0 ex_r1 ex_r2 ex_r3.
